@@ -1,14 +1,16 @@
 #!/bin/bash
-# tools/matrix.sh [seed]  -- sensitivity matrix: every seeded defect and every mutant against the check that is supposed to catch it
-# (quick tier, given VERIF_SEED).  Prints one line per patch: CAUGHT / MISSED / ERROR.  Takes about an hour.
-seed=${1:-1}
+# tools/matrix.sh [seed] [parallel]  -- sensitivity matrix: every seeded defect and every mutant against the check that is supposed to catch
+# it (quick tier, given VERIF_SEED).  One line per patch: CAUGHT / MISSED / ERROR.  Patches are grouped by check; groups run in
+# parallel (default 4 at a time), the patches of one group one after the other (two runs of the same check never overlap).
+seed=${1:-1}; par=${2:-4}
 cd /verif
-declare -A CHK
+tmp=$(mktemp -d /tmp/verif-matrix-XXXXXX)
+trap 'rm -rf "$tmp"' EXIT
 for d in seeded/*/; do
   id=$(basename $d); prop=${id%%-*}
   c=$(python3 -c "import json;print(json.load(open('$d/meta.json')).get('caught_by','').split()[0])" 2>/dev/null)
   case "$c" in C[0-9][0-9]) ;; *) c=$prop;; esac
-  CHK["$d/patch.diff"]=$c
+  echo "${d}patch.diff" >> $tmp/$c.list
 done
 for m in mutants/*.diff; do
   b=$(basename $m)
@@ -23,12 +25,16 @@ PY
     C01-cleanup-after*) c=C16 ;;
     *) c=${b%%-*} ;;
   esac
-  [ -n "$c" ] && CHK["$m"]=$c
+  [ -n "$c" ] && echo "$m" >> $tmp/$c.list
 done
-for p in $(printf '%s\n' "${!CHK[@]}" | sort); do
-  c=${CHK[$p]}
-  out=$(VERIF_SEED=$seed tools/mut.sh "$p" "$c" 2>&1)
-  rc=$(echo "$out" | grep -o 'exit=[0-9]*' | tail -1)
-  case "$rc" in exit=1) v=CAUGHT;; exit=0) v=MISSED;; *) v="ERROR($rc)";; esac
-  echo "$v $c $p $(echo "$out" | grep -m1 'what:' | cut -c1-120)"
-done
+one_group() {
+  c=$1; seed=$2; tmp=$3
+  while read p; do
+    out=$(VERIF_SEED=$seed tools/mut.sh "$p" "$c" 2>&1)
+    rc=$(echo "$out" | grep -o 'exit=[0-9]*' | tail -1)
+    case "$rc" in exit=1) v=CAUGHT;; exit=0) v=MISSED;; *) v="ERROR($rc)";; esac
+    echo "$v $c $p $(echo "$out" | grep -m1 'what:' | cut -c1-120)"
+  done < $tmp/$c.list
+}
+export -f one_group
+ls $tmp/*.list | xargs -n1 basename | sed 's/.list//' | xargs -P $par -I{} bash -c "one_group {} $seed $tmp"
